@@ -52,6 +52,8 @@ type Config struct {
 	ConcreteSched   []int
 	RecordQueries   bool
 	NoMerge         bool
+	FallbackMs      int        // time allowed to each fallback solver when the primary answers unknown (0: no fallback)
+	FallbackSolvers [][]string // command lines, tried in order
 	CrossCheck      int // number of assertion queries per job kept for cross-solver re-checking
 	SlowQuery       time.Duration
 	SlowDir         string
@@ -102,6 +104,7 @@ type Summary struct {
 	QUnsat        int
 	QUnknown      int
 	UnknownFeas   int
+	Fallback      map[string]int // queries the primary solver left undecided and another solver decided: "solver verdict" -> count
 	SolverTime    time.Duration
 	MaxLoop       int
 	Samples       []Sample
@@ -205,6 +208,15 @@ func (e *Engine) lookupType(pkgPath, name string) types.Type {
 		}
 	}
 	return nil
+}
+
+func (e *Engine) noteFallback(solver, verdict string) {
+	e.mu.Lock()
+	defer e.mu.Unlock()
+	if e.Sum.Fallback == nil {
+		e.Sum.Fallback = map[string]int{}
+	}
+	e.Sum.Fallback[solver+" "+verdict]++
 }
 
 func (e *Engine) noteUnknownFeas() {
